@@ -2,6 +2,7 @@ import RedactVerif.Props.L2
 import RedactVerif.Props.FactsClassify
 import RedactVerif.Props.FactsSkelPrinter
 import RedactVerif.Proofs.Contain
+import RedactVerif.Props.TransParse
 /-
 C11 — printing never fails: all inputs accepted, user-method panics contained.
 
@@ -152,5 +153,49 @@ example : ListPB [.slice ([0x5B, 0x5D, 0x69, 0x6E, 0x74, 0x65, 0x72, 0x66, 0x61,
   simp only [List.mem_singleton] at hv
   subst hv
   simp [ValPB, ValsPB, ScriptPB, ValPF]
+
+/-! ### Every format string is accepted by the directive parser's number scanners
+
+Stated on the functions as the translator reads them off `internal/rfmt/print.go` on every run
+(`Generated/Trans.lean`; equality with the model: Props/TransParse.lean): a result `some …` says that no
+index expression of the source is out of range and that every loop ends. -/
+
+/-- `parsenum(s, start, end)` never indexes out of range, for any string and any window inside it. -/
+theorem translated_parsenum_total (s : List Byte) (start e : Nat) (he : e ≤ s.length) :
+    ∃ r, Trans.parsenum s (start : Int) (e : Int) = some r :=
+  ⟨_, parsenum_translated s start e he⟩
+
+/-- `parseArgNumber(format)` never indexes out of range, for any format — `[`, `[]`, `[0]`, `[99999999999999999999]`,
+an unclosed bracket, … -/
+theorem translated_parseArgNumber_total (f : List Byte) : ∃ r, Trans.parseArgNumber f = some r :=
+  ⟨_, parseArgNumber_translated f⟩
+
+theorem argNumber_in_range (p : PP) (argNum : Nat) (f : List Byte) (numArgs : Nat) :
+    (argNumber p argNum f numArgs).1.goodArgNum = true →
+      (argNumber p argNum f numArgs).2.1 < numArgs ∨ (argNumber p argNum f numArgs).2.1 = argNum := by
+  unfold argNumber
+  split
+  · split
+    split
+    · simp
+    · split
+      split
+      · split
+        · rename_i hw
+          intro _; left; simp only; omega
+        · simp
+      · simp
+  · intro _; right; rfl
+
+/-- An explicit argument index is used only when it denotes an operand: `[0]` (index −1), an index beyond the operand
+list, or one too large to parse, never select an operand (Go's `argNumber` on the translated `parseArgNumber`). -/
+theorem translated_argNumber_in_range (p : PP) (argNum : Nat) (f : List Byte) (numArgs : Nat) :
+    ∃ r, argNumberGo p argNum f numArgs = some r ∧ (r.1.goodArgNum = true → r.2.1 < numArgs ∨ r.2.1 = argNum) :=
+  ⟨_, argNumber_translated p argNum f numArgs, argNumber_in_range p argNum f numArgs⟩
+
+example : Trans.parseArgNumber [0x5B, 0x30, 0x5D] = some (-1, 3, true) := by decide
+example : Trans.parseArgNumber [0x5B, 0x32, 0x5D, 0x64] = some (1, 3, true) := by decide
+example : Trans.parseArgNumber [0x5B, 0x32] = some (0, 1, false) := by decide
+example : Trans.parsenum [0x31, 0x32, 0x78] 0 3 = some (12, true, 2) := by decide
 
 end Redact
